@@ -12,7 +12,7 @@ PROP = {  # commit subject keyword -> property the defect was a violation of
  'empty text cell': 'C08', 'stored in the wrong channel': 'C09', "refused with 'array overflow'": 'C09',
  'replaced by -999.25': 'C09', 'representation code 70': 'C07',
  'selects no frame': 'C11', 'no separator when a value fills': 'C11', 'not preceded by a CONS': 'C11',
- 'channel subset raised TypeError': 'C11', 'read as numbers or yes/no': 'C09', 'ZeroDivisionError on a LIS-like': 'C20', 'several padding options tie': 'C20', 'every LIS padding option': 'C20', "caller's channel sub-set": 'C12',
+ 'channel subset raised TypeError': 'C11', 'read as numbers or yes/no': 'C09', 'ZeroDivisionError on a LIS-like': 'C20', 'several padding options tie': 'C20', 'every LIS padding option': 'C20', "caller's channel sub-set": 'C12', 'declared frame type has no frame data': 'C18',
 }
 log = subprocess.run(['git', '-C', '/repo', 'log', '--reverse', '--format=%h|%s'], capture_output=True, text=True).stdout
 fixed = []
